@@ -75,6 +75,42 @@ struct Outcome {
     fired: bool,
 }
 
+/// A caller-defined sequence type (the trait is public, `unsafe` to implement: "lengths must match, and element drop on panic
+/// must be handled" - a `Vec` of exactly N items does both). Its by-value iterator is caller code: every `next()` is a tick, so
+/// the injected panic can fire *inside an operand's iterator* while zip holds moved-out elements of the other operand.
+pub struct UserSeq<T, N: ArrayLength>(Vec<T>, core::marker::PhantomData<N>);
+pub struct UserIter<T>(std::vec::IntoIter<T>);
+impl<T, N: ArrayLength> From<GenericArray<T, N>> for UserSeq<T, N> {
+    fn from(a: GenericArray<T, N>) -> Self {
+        UserSeq(a.into_iter().collect(), core::marker::PhantomData)
+    }
+}
+impl<T> Iterator for UserIter<T> {
+    type Item = T;
+    fn next(&mut self) -> Option<T> {
+        registry::tick("next() of a caller-defined sequence operand");
+        self.0.next()
+    }
+}
+impl<T, N: ArrayLength> IntoIterator for UserSeq<T, N> {
+    type Item = T;
+    type IntoIter = UserIter<T>;
+    fn into_iter(self) -> UserIter<T> {
+        UserIter(self.0.into_iter())
+    }
+}
+unsafe impl<T, N: ArrayLength> GenericSequence<T> for UserSeq<T, N> {
+    type Length = N;
+    type Sequence = GenericArray<T, N>;
+    fn generate<F: FnMut(usize) -> T>(f: F) -> GenericArray<T, N> {
+        GenericArray::generate(f)
+    }
+}
+impl<T, U, N: ArrayLength> MappedGenericSequence<T, U> for UserSeq<T, N> {
+    type Mapped = GenericArray<U, N>;
+}
+impl<T, N: ArrayLength> FunctionalSequence<T> for UserSeq<T, N> {}
+
 fn zip_run<A: Elem + Peek, B: Elem + Peek, N: ArrayLength>(form: u8, k: Option<u64>) {
     zip_run_out::<A, B, Tracked, N>(form, k)
 }
@@ -137,7 +173,15 @@ fn zip_run_out<A: Elem + Peek, B: Elem + Peek, O: Elem, N: ArrayLength>(form: u8
         18 => iz2!(b, a),
         19 => iz2!(&b, a),
         17 => iz2!(Box::new(b), Box::new(a)),
-        _ => iz2!(&mut b, a),
+        20 => iz2!(&mut b, a),
+        // a caller-defined sequence type as an operand: zip runs its iterator between moving elements out of the other operand
+        21 => z!(UserSeq::<A, N>::from(a), b),
+        22 => z!(UserSeq::<A, N>::from(a), &b),
+        23 => z!(UserSeq::<A, N>::from(a), &mut b),
+        24 => z!(a, UserSeq::<B, N>::from(b)),
+        25 => z!(&a, UserSeq::<B, N>::from(b)),
+        26 => z!(&mut a, UserSeq::<B, N>::from(b)),
+        _ => z!(UserSeq::<A, N>::from(a), UserSeq::<B, N>::from(b)),
     }
 }
 
@@ -600,7 +644,7 @@ fn instances(thorough: bool) -> Vec<Case> {
             }
         }
         if ziplens.contains(&n) {
-            for form in 0..21u8 {
+            for form in 0..28u8 {
                 for (lk, rk) in [(K3::Tracked, K3::Tracked), (K3::Tracked, K3::U32), (K3::U32, K3::Tracked), (K3::Tracked, K3::Zst), (K3::Zst, K3::Tracked), (K3::U32, K3::U32)] {
                     out.push(Case { op: Op::Zip(form, lk, rk), n, zst: false, k: None });
                 }
@@ -677,7 +721,7 @@ pub fn main() {
             prop: PROP,
             level: "fault_enumeration",
             rule: "operation instance = (operation and receiver/argument form, N, element kind); for each instance a clean run counts the K invocations of caller code (closure, Clone::clone, Default::default, source next()), then the instance is re-run once per crash point k in 0..K with a panic injected at exactly that invocation (every k for K <= 80, else first/last/middle + a seeded spread). \
-                   Operations: generate x4 forms, map x4, zip x10 forms plus 11 direct inverted_zip / inverted_zip2 call forms (incl. an owned left operand) x 6 element-kind pairs (drop-tracked / plain / zero-sized, selecting the needs_drop branches) with a drop-tracked output, and x 8 (lhs, rhs, output) kind triples with a plain or unit output, fold x4, clone_from for arrays, boxed arrays and by-value iterators (source and destination in several positions), iterator fold/rfold/map-collect/Clone and ten provided adaptor methods with closures (for_each, find, position, all, rev, for-loop, skip, map().last(), max_by_key, rposition) from every (front, back) for N<=8, Clone for GenericArray and Box<GenericArray>, Default, default_boxed, collect x4 targets x 3 produced counts x 3 hints from a scripted source that panics in next(), and the internals builders/consumer abandoned at every position. \
+                   Operations: generate x4 forms, map x4, zip x10 forms plus 11 direct inverted_zip / inverted_zip2 call forms (incl. an owned left operand) plus 7 forms in which one or both operands are a caller-defined GenericSequence type whose by-value iterator panics in next() x 6 element-kind pairs (drop-tracked / plain / zero-sized, selecting the needs_drop branches) with a drop-tracked output, and x 8 (lhs, rhs, output) kind triples with a plain or unit output, fold x4, clone_from for arrays, boxed arrays and by-value iterators (source and destination in several positions), iterator fold/rfold/map-collect/Clone and ten provided adaptor methods with closures (for_each, find, position, all, rev, for-loop, skip, map().last(), max_by_key, rposition) from every (front, back) for N<=8, Clone for GenericArray and Box<GenericArray>, Default, default_boxed, collect x4 targets x 3 produced counts x 3 hints from a scripted source that panics in next(), and the internals builders/consumer abandoned at every position. \
                    Oracle: the panic propagates with the injected payload, and once every local is gone each element ever created (inputs, partial outputs, values handed to the closure, clones) has been dropped exactly once, none as garbage. \
                    non-trivial = the injected panic fired with 0 < k < K-1 (a built prefix and an unconsumed suffix both exist); distinct = distinct (instance, k)",
             exhaustive: false,
